@@ -114,7 +114,7 @@ func C05(p *load.Prog, r *report.Report) {
 	}
 	// field-level: Equals and IsZero are whole-value tests
 	a, b := absint.FieldSym(FP, "a"), absint.FieldSym(FP, "b")
-	if fn := p.Method(p.Field, "Element", "Equals"); fn != nil {
+	if fn := anchorMethod(p, p.Field, "Element", "Equals"); fn != nil {
 		explore(p, absint.Config{}, fn, func(it *absint.Interp) []absint.Value {
 			return []absint.Value{ptr(m.newFE(it, "a", a)), ptr(m.newFE(it, "b", b))}
 		}, func(res *absint.PathResult) {
@@ -125,7 +125,7 @@ func C05(p *load.Prog, r *report.Report) {
 	} else {
 		r.Undecided("C05.anchor", "field.Element.Equals", "", "method not found")
 	}
-	if fn := p.Method(p.Field, "Element", "IsZero"); fn != nil {
+	if fn := anchorMethod(p, p.Field, "Element", "IsZero"); fn != nil {
 		explore(p, absint.Config{}, fn, func(it *absint.Interp) []absint.Value {
 			return []absint.Value{ptr(m.newFE(it, "a", a))}
 		}, func(res *absint.PathResult) {
